@@ -104,6 +104,23 @@ LinRhs(b, pool, flux, e, x, mode) ==
                               Q!Zero, [j \in DOMAIN b.rxns |-> j]),
                  Q!RFromInt(pool[(CHOOSE r \in pidx : r.n = n).c]))]
 
+(***************************************************************************)
+(* The external enrichment is a PARAMETER of the built model: "for any     *)
+(* external enrichment" covers an enrichment given to build_model and one  *)
+(* set afterwards with update_parameter("EXT", x) alike.  The built model  *)
+(* is therefore a state [ext]; its right-hand side after any history       *)
+(* build(x0), set(x1), ..., set(xn) is LinRhs at EXT = xn, whatever x0 was *)
+(* (in particular x0 = 0: a model built for an unlabelled pool must still  *)
+(* contain every label influx).                                            *)
+(***************************************************************************)
+BuiltModel(x) == [ext |-> x]
+SetExt(m, x)  == [m EXCEPT !.ext = x]
+\* h : a non-empty sequence of external enrichments (h[1] given to build_model, the others set one after the other)
+RECURSIVE ApplyHistory(_, _, _)
+ApplyHistory(m, h, i) == IF i > Len(h) THEN m ELSE ApplyHistory(SetExt(m, h[i]), h, i + 1)
+AfterHistory(h) == ApplyHistory(BuiltModel(h[1]), h, 2)
+ModelRhs(b, pool, flux, m, e, mode) == LinRhs(b, pool, flux, e, m.ext, mode)
+
 \* a map that is its own inverse (a permutation m of the source positions with m[m[i]] = i)
 Involutive(b, r) ==
     /\ LinProper(b, r)
